@@ -792,6 +792,17 @@ func (f *folder) recordFacts(b *sx) {
 			f.facts[s] = true
 		}
 	}
+	// (<= ref top!0): a reference that existed at entry (rank 0: not known distinct from other such references)
+	if b.headAtom() == "<=" && len(b.list) == 3 && b.list[1].list == nil && b.list[2].isAtom("top!0") {
+		if f.rank == nil {
+			f.rank = map[string]int{"top!0": 0}
+		}
+		if _, have := f.rank[b.list[1].atom]; !have {
+			if _, isNum := b.list[1].num(); !isNum {
+				f.rank[b.list[1].atom] = 0
+			}
+		}
+	}
 	// (> newref oldref): references are allocated in strictly increasing order
 	if b.headAtom() == ">" && len(b.list) == 3 && b.list[1].list == nil && b.list[2].list == nil {
 		if f.rank == nil {
